@@ -27,8 +27,13 @@ def configs(tier, seed):
     out = []
 
     def add(N, af, ifs, ag, igs, dw=16):
+        k = len(out)
         out.append({"N": N, "afeat": sorted(af), "ifeat": [sorted(x) for x in ifs], "agran": ag,
-                    "igran": list(igs), "dw": dw, "aw": 2})
+                    "igran": list(igs), "dw": dw, "aw": 2,
+                    # features spelled as wishbone.Feature members instead of strings
+                    "enum": k % 3 == 1,
+                    # an add() that the arbiter refuses (initiator lacks err/rty) before / between the valid ones
+                    "refused_at": (k % N) if (k % 4 == 2 and ("err" in af or "rty" in af)) else None})
     # hand-picked representatives
     add(1, [], [[]], 8, [8])
     add(1, ["lock", "stall"], [["stall"]], 16, [16])
@@ -81,13 +86,26 @@ def configs(tier, seed):
 
 def maker(cfg):
     def make():
+        fe = (lambda fs: [wishbone.Feature(f) for f in fs]) if cfg.get("enum") else (lambda fs: fs)
         arb = wishbone.Arbiter(addr_width=cfg["aw"], data_width=cfg["dw"], granularity=cfg["agran"],
-                               features=cfg["afeat"])
+                               features=fe(cfg["afeat"]))
         intrs = [wishbone.Interface(addr_width=cfg["aw"], data_width=cfg["dw"], granularity=cfg["igran"][i],
-                                    features=cfg["ifeat"][i], path=(f"i{i}",)) for i in range(cfg["N"])]
-        for it in intrs:
+                                    features=fe(cfg["ifeat"][i]), path=(f"i{i}",)) for i in range(cfg["N"])]
+        ghosts = []
+        for i, it in enumerate(intrs):
+            if cfg.get("refused_at") == i:
+                g = wishbone.Interface(addr_width=cfg["aw"], data_width=cfg["dw"], granularity=cfg["agran"],
+                                       features=[], path=("refused",))
+                try:
+                    arb.add(g)
+                    raise AssertionError("initiator without err/rty accepted by an arbiter that has them")
+                except ValueError:
+                    ghosts.append(g)       # still wired to something else in the design: its outputs are arbitrary
             arb.add(it)
-        return Harness(arb, flat_ports(arb) + flat_ports(*intrs, env="out"), arb=arb, intrs=intrs)
+        ports = flat_ports(arb) + flat_ports(*intrs, env="out")
+        if ghosts:
+            ports = ports + flat_ports(*ghosts, env="out")
+        return Harness(arb, ports, arb=arb, intrs=intrs, ghosts=ghosts)
     return make
 
 
